@@ -283,8 +283,12 @@ def verify(h, tier, keep=None):
         if rc != 0:
             raise Undecided('goto-instrument failed: ' + ((se or '') + (so or ''))[-1500:])
         gi_log = (so or '') + (se or '')
-        checks = [c for c in DEFAULT_CHECKS if c[2:-6] not in h.checks_off and c not in h.checks_off]
-        checks = [c for c in DEFAULT_CHECKS if c not in ['--' + x + '-check' for x in h.checks_off]]
+        off = ['--' + x + '-check' for x in h.checks_off]
+        checks = [c for c in DEFAULT_CHECKS if c not in off]
+        # CBMC 6 switches its standard checks on by default: an explicit --no-<x>-check is needed to drop one
+        for x in h.checks_off:
+            if x in ('bounds', 'pointer', 'div-by-zero', 'signed-overflow', 'undefined-shift', 'pointer-primitive'):
+                checks.append('--no-' + x + '-check')
         for c in h.checks_on:
             checks.append(OPTIONAL_CHECKS.get(c, '--' + c + '-check'))
         base = ['cbmc', b, '--object-bits', str(h.object_bits)] + checks + h.extra_cbmc
